@@ -27,9 +27,9 @@ contract(f"{RT}:Router.gn_forwarding_algorithm_selection", props=["C07"],
                  "sender_gn_addr": T.opt(GNADDR)},
          requires=["-2 ** 31 <= self.ego_position_vector.latitude < 2 ** 31", "-2 ** 31 <= self.ego_position_vector.longitude < 2 ** 31"],
          opaque=["F_area"],
-         ensures={"annex_d_inside": "implies(request.area.angle == 0 and F_ego(self, request) >= 0, result.value == 1)",
-                  "annex_d_outside_never_area_forwarding": "implies(request.area.angle == 0 and F_ego(self, request) < 0, result.value != 1)",
-                  "annex_d_no_sender": "implies(request.area.angle == 0 and F_ego(self, request) < 0 and sender_gn_addr is None, result.value == 2)"},
+         ensures={"annex_d_inside": "implies(F_ego(self, request) >= 0, result.value == 1)",
+                  "annex_d_outside_never_area_forwarding": "implies(F_ego(self, request) < 0, result.value != 1)",
+                  "annex_d_no_sender": "implies(F_ego(self, request) < 0 and sender_gn_addr is None, result.value == 2)"},
          canary={"always_area": "result.value == 1"},
          **SI)
 
